@@ -295,11 +295,12 @@ PROPS["C10"]["jobs"] = PROPS["C10"]["jobs"] + [
     {"name": "realrt", "pkg": "./c10rt", "run": "^TestRapidRealRuntime$", "rapid": T(300, 6000), "shards": T(1, 4), "replay": "^TestReplay$", "replay_match": "realrt-amd64"},
     {"name": "realrt-386", "pkg": "./c10rt", "goarch": "386", "run": "^TestRapidRealRuntime$", "rapid": T(300, 6000), "shards": T(1, 4), "replay": "^TestReplay$", "replay_match": "realrt-386"},
 ]
-_SEQWRAP = [{"name": "seqwrap", "pkg": "./c10rt", "run": "^TestSequenceWrap$", "timeout": T(600, 600)},
+_SEQWRAP = [{"name": "bigmsg", "pkg": "./c10rt", "run": "^TestBigMessages$", "timeout": T(900, 900)},
+            {"name": "seqwrap", "pkg": "./c10rt", "run": "^TestSequenceWrap$", "timeout": T(600, 600)},
             {"name": "seqwrap-386", "pkg": "./c10rt", "goarch": "386", "run": "^TestSequenceWrap$", "timeout": T(600, 600)}]
 for _p in ("C10", "C11", "C12"):
     PROPS[_p]["jobs"] = PROPS[_p]["jobs"] + [dict(j) for j in _SEQWRAP]
-    PROPS[_p]["assumptions"] = PROPS[_p]["assumptions"] + ["seqwrap jobs: the ring's sequence numbers are preset through reflection to just below 2^8, 2^16, 2^31, 2^32 (the state after that many messages), then a backlog smaller than the ring is written and drained on the real runtime"]
+    PROPS[_p]["assumptions"] = PROPS[_p]["assumptions"] + ["bigmsg job (real runtime): whether the consumer is parked is read from goroutine dumps (Cond.Wait in waiter mode; asleep in five dumps in a row with no delivery in polling mode)", "seqwrap jobs: the ring's sequence numbers are preset through reflection to just below 2^8, 2^16, 2^31, 2^32 (the state after that many messages), then a backlog smaller than the ring is written and drained on the real runtime"]
 PROPS["C10"]["assumptions"] = PROPS["C10"]["assumptions"] + ["real-runtime jobs (native and GOARCH=386): only the interleavings the Go scheduler happens to produce; they add the platform dimension (32-bit alignment and int width), not schedule coverage"]
 PROPS["C10"]["jobs"] = PROPS["C10"]["jobs"] + [{"name": "stdlog", "pkg": "./c10rt", "run": "^TestStdLogProducers$", "timeout": T(600, 600)},
                                                {"name": "stdlog-386", "pkg": "./c10rt", "goarch": "386", "run": "^TestStdLogProducers$", "timeout": T(600, 600), "thorough_only": True}]
